@@ -474,12 +474,12 @@ def _custom_utility_cases(draw):
 
 SUBS = [
     Sub("custom_utilities", check_custom_utilities, strategy=_custom_utility_cases, quick=400, thorough=8000, shards=16,
-        floors={"nt": 0.4, "non_complementary_utilities": 0.5}),
+        floors={"nt": 0.361, "non_complementary_utilities": 0.45}),
     Sub("parity_identity", check_parity_identity, strategy=_identity_cases, quick=800, thorough=20000, shards=16,
         floors={"nt": 0.383, "control": 0.197, "ratio<1": 0.16, "missing_group": 0.15, "soft": 0.268,
-                "both_signs": 0.35, "projection_active": 0.2}),
+                "both_signs": 0.35, "projection_active": 0.182}),
     Sub("loss_identity", check_loss_identity, strategy=_loss_cases, quick=400, thorough=8000, shards=8,
-        floors={"nt": 0.343, "bgl": 0.244, "error_rate": 0.187, "asymmetric_costs": 0.106, "unequal_groups": 0.15}),
+        floors={"nt": 0.325, "bgl": 0.235, "error_rate": 0.187, "asymmetric_costs": 0.106, "unequal_groups": 0.15}),
     Sub("best_response", check_best_response, strategy=_best_response_cases, quick=300, thorough=5000, shards=16,
         shrink_quick=False,
         floors={"nt": 0.364, "control": 0.182, "ratio<1": 0.141, "relabel_both": 0.3, "labels_flipped": 0.3,
